@@ -33,6 +33,10 @@ def gen(tier, rng, harness=None, driver=None):
                              ("@d, %7", "define void @d() {\nentry:\n\tret void\n}\n"), ("@nosuch, %entry", "define void @d() {\nentry:\n\tret void\n}\n")):
             lines.append("!mod.mustfail - %s" % hx(prelude + "\n" + site % tgt))
     lines.append("!mod.mustfail - %s" % hx("declare void @ext()\n\nuselistorder_bb @ext, %bb, { 1, 0 }\n"))
+    # a parameter name defined twice: in a declaration as in a definition
+    for kw, body in (("declare", ""), ("define", " {\n\tret void\n}")):
+        for ps in ("i32 %x, i32 %x", "i32 %x, i8* %y, i64 %x", 'i32 %"a b", i32 %"a b"', "i32 %x, i32 %\"x\""):
+            lines.append("!mod.mustfail - %s" % hx("%s void @f(%s)%s\n" % (kw, ps, body)))
     # M-Core-3: the proved translation of real function bodies against the real parser on printed functions and their single-point mutants
     from . import pC01
     lines += pC01.core3_parse_stream(rng, driver, n)
